@@ -359,6 +359,25 @@ BeginBatch(na) == /\ hdl = "rw" /\ noAuto' = na /\ last' = Obs("begin_batch", "o
 EndBatch == /\ hdl = "rw" /\ noAuto' = FALSE /\ last' = Obs("end_batch", "ok", 0)
             /\ UNCHANGED <<exists, frames, pend, wal, hdl, snap, dirty, pins, ticket, cpe, acked>>
 
+\* commit_skip_indexes: the pending window is applied and checkpointed in place, no index is (re)built and no
+\* Lex-batch record is appended.  finalize_indexes: all indexes are rebuilt in place; the lexical rebuild appends a
+\* Lex-batch record that stays pending until the next commit / open.
+CommitSkip(pe) ==
+  /\ hdl = "rw"
+  /\ frames' = Apply(frames, pend) /\ pend' = <<>>
+  /\ wR' = wR /\ wh' = wh /\ wpb' = 0 /\ wapc' = 0 /\ wseq' = wseq /\ wcseq' = wseq
+  /\ dirty' = FALSE /\ pins' = 0 /\ acked' = <<>> /\ cpe' = Max(cpe, pe)
+  /\ UNCHANGED <<exists, hdl, snap, noAuto, ticket>>
+  /\ last' = Obs("commit_skip", "ok", 0)
+
+Finalize(lexLen) ==
+  /\ hdl = "rw"
+  /\ LET w1 == IF lexLen > 0 THEN AppendAll(W, <<lexLen>>) ELSE W IN
+     /\ pend' = (IF lexLen > 0 THEN Append(pend, Lex(w1.seq)) ELSE pend)
+     /\ wR' = w1.r /\ wh' = w1.h /\ wpb' = w1.pb /\ wapc' = w1.apc /\ wseq' = w1.seq /\ wcseq' = wcseq
+  /\ UNCHANGED <<exists, frames, hdl, snap, dirty, pins, noAuto, ticket, cpe, acked>>
+  /\ last' = Obs("finalize", "ok", 0)
+
 \* reads never change anything
 Read(op) == /\ hdl # "none" /\ last' = Obs(op, "ok", 0)
             /\ UNCHANGED <<exists, frames, pend, wal, hdl, snap, dirty, pins, noAuto, ticket, cpe, acked>>
